@@ -8,9 +8,9 @@
 // METHOD: inductive steps from ARBITRARY session states built field by field:
 //   state = (base_facts, fact_log, current_facts);   Inv: current_facts == replay(fact_log)
 //   c14_overlay_*        queries of ANY (base, current_facts) = base overlaid with current_facts
-//   c14_write_step*      insert/delete from ANY state change exactly the written key and append
+//   c14_write_step_small*      insert/delete from ANY state change exactly the written key and append
 //                        to fact_log  (=> Inv preserved)
-//   c13_session_revert_step*  revert(i) from ANY state (current_facts arbitrary garbage, Arc shared
+//   c13_session_revert_step_small*  revert(i) from ANY state (current_facts arbitrary garbage, Arc shared
 //                        or not) leaves fact_log[..i] and current_facts == replay(fact_log[..i])
 //   c14_action_* / c14_receive_*  real Session::action / Session::receive with a policy that writes
 //                        and then accepts or REJECTS: from any Inv state, failure leaves every
@@ -1058,25 +1058,25 @@ macro_rules! harness {
 }
 
 // C14 overlay
-harness!(c14_overlay_exact, false, overlay_case(2, 2, false));
+harness!(c14_overlay_exact_small, false, overlay_case(2, 2, false));
 harness!(c14_overlay_exact_full, false, overlay_case(3, 3, false));
 harness!(c14_overlay_exact_mixed, true, overlay_case(2, 2, false));
-harness!(c14_overlay_prefix, false, overlay_case(2, 2, true), 2, "prefix query with two or more results");
+harness!(c14_overlay_prefix_small, false, overlay_case(2, 2, true), 2, "prefix query with two or more results");
 harness!(c14_overlay_prefix_full, false, overlay_case(3, 3, true), 3, "prefix query with three results");
 harness!(c14_overlay_prefix_mixed, true, overlay_case(2, 2, true), 2, "prefix query with two or more results");
 // C14 writes
-harness!(c14_write_step, false, write_case(1, 1, 1, false));
+harness!(c14_write_step_small, false, write_case(1, 1, 1, false));
 harness!(c14_write_step_full, false, write_case(2, 2, 1, false));
 harness!(c14_write_step_prefix, false, write_case(2, 1, 0, true), 2, "prefix query with two or more results");
 harness!(c14_write_step_mixed, true, write_case(1, 1, 0, false));
 // C13 session revert
-harness!(c13_session_revert_step, false, revert_case(1, 2, 1, false));
+harness!(c13_session_revert_step_small, false, revert_case(1, 2, 1, false));
 harness!(c13_session_revert_step_full, false, revert_case(2, 3, 2, false));
 harness!(c13_session_revert_step_prefix, false, revert_case(2, 2, 1, true), 2, "prefix query with two or more results");
 harness!(c13_session_history3, false, session_history(3, 1));
 // C14 action / receive
-harness!(c14_action_step, false, session_op_case(1, 1, 1, false, false));
+harness!(c14_action_step_small, false, session_op_case(1, 1, 1, false, false));
 harness!(c14_action_step_full, false, session_op_case(2, 1, 2, false, false));
 harness!(c14_action_step_prefix, false, session_op_case(2, 1, 1, false, true), 2, "prefix query with two or more results");
-harness!(c14_receive_step, false, session_op_case(1, 1, 1, true, false));
+harness!(c14_receive_step_small, false, session_op_case(1, 1, 1, true, false));
 harness!(c14_receive_step_full, false, session_op_case(2, 1, 2, true, false));
